@@ -478,6 +478,26 @@ func vCopyDir(src, dst string) error {
 	return nil
 }
 
+//gosmt:replace github.com/xujiajun/utils/filesystem.CopyFile
+func vCopyFile(src, dst string) error {
+	vfsOps++
+	vFileAccess(false)
+	s := vfsLookup(src)
+	if s == nil || !s.exists || s.isDir {
+		return vErrNotExist
+	}
+	if !vfsDirExists(vfsParent(dst)) {
+		return vErrNotExist
+	}
+	d := vfsLookup(dst)
+	if d == nil {
+		d = &vFile{name: dst}
+		vfsFiles = append(vfsFiles, d)
+	}
+	d.exists, d.isDir, d.data = true, false, append([]byte{}, s.data...)
+	return nil
+}
+
 // (*DataFile).WriteAt is a one-line wrapper around the RWManager; replacing it (and only it) lets the
 // model tear or fail a segment write for both managers while the real FileIORWManager / MMapRWManager
 // code still performs the write.
